@@ -109,6 +109,14 @@ def chunk_ab_set (_E : Nat) (c : Chunk) (n : Nat) (s : St) : St × Outcome Unit 
     else (s, .bad "store to allocated_bytes of a chunk that is not current")
   | [] => (s, .bad "store to allocated_bytes of the static empty chunk")
 
+/-- `self.allocation_limit.set(l)` -/
+def set_limit (l : Option Nat) (s : St) : St × Outcome Unit :=
+  ({ s with a := { s.a with limit := l } }, .ok ())
+
+/-- `slice[..].fill(0)` over `n` bytes at `dst` -/
+def zero_fill (dst n : Nat) (s : St) : St × Outcome Unit :=
+  ({ s with mem := s.mem ++ [.zero dst n] }, .ok ())
+
 /-- the global allocator (`alloc::alloc(layout)`): the next answer of the environment; a null pointer is `0`.  An
 answer that violates the allocator contract (`mallocOK`: non-null, aligned, inside the address space, disjoint from
 everything the arena holds and from the static) is the environment's fault, not the crate's -/
